@@ -24,9 +24,18 @@ type FuncResult struct {
 	Loops    int
 	Instrs   int
 	VC       *VC
+	LemmaVars []lemmaVar
+	LemmaBody *SX
+	Lemma    *Lemma
 	Final    *State
 	Params   []Val
 	Results  []Val
+}
+
+type lemmaVar struct {
+	Name string
+	T    types.Type
+	V    *SV
 }
 
 func (p *Prog) ghost(name string) *GhostVar {
@@ -336,26 +345,72 @@ func VerifyLemma(prog *Prog, lm *Lemma) (res *FuncResult) {
 	}()
 	strLits, strLitOrder = map[string]*Term{}, nil
 	reg := NewKeyRegistry()
-	vc := &VC{prog: prog, reg: reg, params: map[string]*SV{}, used: map[string]bool{}, unmod: map[string]bool{}, callSeq: map[string]int{},
-		oblNames: map[string]int{}, typeTags: map[string]int{}, boxed: map[*Term]Val{}, boxedType: map[*Term]types.Type{}, strDone: map[*Term]bool{}}
-	vc.A0 = Var("A0", IntSort)
-	vc.allocBase = vc.A0
-	vc.allocBases = map[*Term]bool{vc.A0: true}
-	st := &State{vc: vc, pc: True(), cells: map[int]Val{}, heap: map[string]*Term{}}
-	vc.discovery = true // lemmas are heap-free; lazily created keys are harmless
-	env := &SpecEnv{vc: vc, st: st, old: st, vars: map[string]*SV{}, pkg: prog.TypesPkg[pkgDirToPath(lm.Pkg)]}
-	g, err := env.evalBool(lm.Expr)
-	if err != nil {
-		res.Err = err.Error()
-		return
+	var vc *VC
+	var g *Term
+	for pass := 0; pass < 4; pass++ {
+		reg.added = false
+		vc = newVC(prog, nil, nil, reg, pass == 0)
+		st := &State{vc: vc, pc: True(), cells: map[int]Val{}, heap: map[string]*Term{}}
+		if pass > 0 {
+			for _, k := range reg.sorted() {
+				st.heap[k] = Var("H0:"+k, reg.m[k].Sort)
+			}
+		}
+		vc.entry = st
+		env := &SpecEnv{vc: vc, st: st, old: st, vars: map[string]*SV{}, pkg: prog.TypesPkg[pkgDirToPath(lm.Pkg)]}
+		var err error
+		// proving validity: the leading universal quantifiers are replaced by fresh constants up front, so that
+		// every fact generated while executing called functions is ground and a counterexample is a plain model
+		body := lm.Expr
+		res.LemmaVars = nil
+		for body.K == "quant" && body.Op == "forall" {
+			for _, b := range body.Binders {
+				t, terr := env.resolveType(b.Type)
+				if terr != nil {
+					res.Err = terr.Error()
+					return
+				}
+				var sv *SV
+				if sl, ok := under(t).(*types.Slice); ok && scalarSort(sl.Elem()) != nil {
+					sq := &SeqV{A: Fresh("lv."+b.Name+".a", ArraySort(IntSort, scalarSort(sl.Elem()))), Len: Fresh("lv."+b.Name+".n", IntSort)}
+					vc.addGlobalFact(Ge(sq.Len, IntC(0)))
+					sv = &SV{V: sq, T: t}
+				} else if s := scalarSort(t); s != nil {
+					c := Fresh("lv."+b.Name, s)
+					for _, f := range rangeFacts(c, t) {
+						vc.addGlobalFact(f)
+					}
+					sv = &SV{V: c, T: t}
+				} else {
+					res.Err = "lemma variable " + b.Name + " has unsupported type " + b.Type
+					return
+				}
+				env.vars[b.Name] = sv
+				res.LemmaVars = append(res.LemmaVars, lemmaVar{b.Name, t, sv})
+			}
+			body = body.A[0]
+		}
+		res.LemmaBody = body
+		res.Lemma = lm
+		g, err = env.evalBool(body)
+		if err != nil {
+			res.Err = err.Error()
+			return
+		}
+		if pass > 0 && !reg.added && !vc.lateKeys {
+			break
+		}
 	}
 	pk := strings.TrimPrefix(lm.Pkg, "./")
 	if i := strings.LastIndex(pk, "/"); i >= 0 {
 		pk = pk[i+1:]
 	}
-	o := &Obligation{Name: pk + ".lemma#" + lm.Name, Tags: lm.Tags, Kind: "lemma", PC: True(), Goal: g, NAssume: 0, Src: lm.Src, Fn: "lemma " + lm.Name}
+	o := &Obligation{Name: pk + ".lemma#" + lm.Name, Tags: lm.Tags, Kind: "lemma", PC: True(), Goal: g, NAssume: len(vc.assumes), Src: lm.Src, Fn: "lemma " + lm.Name}
 	res.Obls = []*Obligation{o}
 	res.GFacts = append(vc.gfacts, strLitAxioms()...)
 	res.Assumes = vc.assumes
+	res.Used = sortedKeys(vc.used)
+	res.Unmod = sortedKeys(vc.unmod)
+	res.VC = vc
 	return
 }
